@@ -19,7 +19,7 @@ from .. import core, pipeline
 
 OWN = {
     "C07": ("c_",),
-    "C09": ("a_",),
+    "C09": ("a_", "bd_lost"),
     "C10": ("b_", "bd_lost"),
     "C11": ("d_filter", "bd_lost", "c_junk", "t_filter"),
     "C12": ("e_", "t_"),
